@@ -567,7 +567,10 @@ class Evaluator:
             elif k == "if":
                 if s.get("init"):
                     self.exec_block_list([s["init"]], frame)
-                c = self.rv(self.eval(s["c"], frame))
+                if s.get("constexpr") and "cond_value" in s:
+                    c = bool(s["cond_value"])         # `if constexpr`: the discarded branch is not instantiated
+                else:
+                    c = self.rv(self.eval(s["c"], frame))
                 rest = list(stmts[i + 1:])
                 if c is True:
                     stmts = [s["then"]] + rest
@@ -1467,6 +1470,15 @@ class Evaluator:
         m = re.match(r"std::get<(\d+)U?L?[,>]", name)
         if m and len(args) == 1 and this_lv is None and isinstance(val(0), tuple) and val(0) and val(0)[0] == "tuple":
             return val(0)[1][int(m.group(1))]
+        # ---- std::get<I>(std::pair) (also what structured bindings of a map entry use)
+        m = re.match(r"std::get<(\d+)U?L?[,>]", name)
+        if m and len(args) == 1 and this_lv is None and int(m.group(1)) in (0, 1):
+            v0 = val(0)
+            if isinstance(v0, Obj) and "first" in v0.f and "second" in v0.f:
+                fld = ("first", "second")[int(m.group(1))]
+                if isinstance(args[0], LV):
+                    return LV(args[0].loc, args[0].path + (fld,))
+                return v0.f[fld]
         # ---- std::get<I>(std::array)
         m = re.match(r"std::get<(\d+)U?L?,", name)
         if m and len(args) == 1 and this_lv is None:
